@@ -30,6 +30,8 @@ CONSTANTS Clients,     \* set of strings, e.g. {"c1","c2"}
           MaxPings,    \* timer ticks per handler explored by MC (the first tick is at time 0)
           PingFirst,   \* TRUE (replay models): the time-0 ping is folded into Register, no later ticks
           NoRaces,     \* TRUE (replay models): do not enter states in which a select has two ready cases
+          ServerCuts,  \* FALSE: as designed. TRUE (negative config): the serving layer (http.Server timeouts, ...) ends the
+                       \*        stream of a client whose browser is still there
           Slow,        \* clients whose writes may stall for ever (no fairness on their WriteDone)
           EmitEdges
 
@@ -117,6 +119,14 @@ Cancel(c) ==
     /\ Connected(c) /\ ~cancelled[c]
     /\ cancelled' = [cancelled EXCEPT ![c] = TRUE]
     /\ lbl' = [a |-> "cancel", c |-> c]
+    /\ UNCHANGED <<pc, wr, pings, requests, ch, done, dl, got, targets, m, bpc, sent, bcur, panicked>>
+
+\* NOT part of the design (ServerCuts = FALSE): the server side ends a healthy client's never-ending response -- e.g. an
+\* absolute per-request write deadline -- which cancels the request context although the browser is still connected
+ServerCut(c) ==
+    /\ ServerCuts /\ Connected(c) /\ ~cancelled[c]
+    /\ cancelled' = [cancelled EXCEPT ![c] = TRUE]
+    /\ lbl' = [a |-> "servercut", c |-> c]
     /\ UNCHANGED <<pc, wr, pings, requests, ch, done, dl, got, targets, m, bpc, sent, bcur, panicked>>
 
 \* case <-r.Context().Done(): break loop
@@ -225,7 +235,7 @@ Ready(c) == (IF cancelled[c] THEN 1 ELSE 0)
 Racy == \E c \in Clients : pc[c] = "loop" /\ Ready(c) >= 2
 
 Step == \/ \E c \in Clients : \/ Register(c) \/ Ping(c) \/ WriteDone(c) \/ WriteFail(c)
-                              \/ Cancel(c) \/ ExitCtx(c) \/ Unregister(c) \/ BPick(c)
+                              \/ Cancel(c) \/ ServerCut(c) \/ ExitCtx(c) \/ Unregister(c) \/ BPick(c)
         \/ \E c \in Clients, b \in B : Deliver(c, b) \/ Run(c, b) \/ Abandon(c, b) \/ TimeoutDrop(c, b) \/ SerialPick(c, b)
         \/ BLock \/ BSpawn \/ BInline \/ BUnlock
 
@@ -283,6 +293,12 @@ Quiescent == /\ ~panicked /\ bpc = "idle"
              /\ \A c \in Clients, b \in B : dl[c][b] \notin {"spawned", "queued", "sending"}
 DeliveredAtQuiescence ==
     Quiescent => \A c \in Clients, b \in B : (c \in targets[b] /\ ~cancelled[c]) => b \in got[c]
+
+\* C19: a client stays on the event stream for as long as its browser stays: the only step that cancels a client's
+\* request context is the browser going away (Cancel). (Delivered alone would not notice: it excuses cancelled clients.)
+\* The label variable names the action of every step, so this is an action property.
+LiveClientStaysRegistered ==
+    [][\A c \in Clients : (cancelled'[c] # cancelled[c]) => lbl'.a = "cancel"]_<<vars, lbl>>
 
 \* liveness (under Fairness): a client registered at the broadcast and still connected receives it
 Delivered == \A c \in Clients \ Slow, b \in B :
